@@ -9,7 +9,7 @@
 -/
 import PyGqlModel.ExecOp
 
-namespace PyGql.Exec
+namespace PyGql.AsyncExec
 
 mutual
 def denComp : Comp → Option V
@@ -39,4 +39,31 @@ def denOut : ROut → Option V
   | .exc => none
 end
 
-end PyGql.Exec
+end PyGql.AsyncExec
+
+namespace PyGql.AsyncExec
+
+/-! ### SPECIFICATION of the field errors (for operations that do not fail as a whole), in the order the
+    blocking executor reports them: a `ResolverError` at the field's path, a null in a non-null position
+    at that position's path. -/
+mutual
+def errsComp (path : Path) : Comp → List Err
+  | .nonNull c => errsComp path c ++ (match denComp c with | some .null => [⟨path, .nonNull⟩] | _ => [])
+  | .list items => errsItems path 0 items
+  | .obj fs => errsFlds path fs
+  | .null => []
+  | .leaf _ => []
+  | .bad => []
+def errsItems (path : Path) (i : Nat) : Comps → List Err
+  | .nil => []
+  | .cons c cs => errsComp (path ++ [.idx i]) c ++ errsItems path (i + 1) cs
+def errsFlds (path : Path) : Flds → List Err
+  | .nil => []
+  | .cons key _ out rest => errsOut (path ++ [.key key]) out ++ errsFlds path rest
+def errsOut (p : Path) : ROut → List Err
+  | .ok c => errsComp p c
+  | .rerr => [⟨p, .resolver⟩]
+  | .exc => []
+end
+
+end PyGql.AsyncExec
